@@ -10,6 +10,7 @@ SPEC = {'id': 'C16',
  'theorems': [(_P, _N + n) for n in [
      'in_use_le_capacity', 'tokens_match_sessions', 'released_exactly_once', 'release_accounting',
      'full_capacity_after_quiescence', 'load_arith', 'load_multiple_of_8_le_in_use', 'count_is_slots_held',
+     'loadNat_within_8', 'loadNat_mono', 'loadNat_zero_iff', 'load_within_8',
      # kernel-checked refutations for the pinned skeleton (F11) and the repaired counterpart
      'pinned_double_release', 'pinned_capacity_overrun', 'pinned_poll_loop_blocked',
      'pinned_released_exactly_once_fails', 'pinned_in_use_le_capacity_fails', 'fixed_race_single_release']],
